@@ -385,19 +385,23 @@ def r3_generators(ctx, repo):
             # the appended value with the temporaries of this path looked through
             pe = PathEnv(fn, p.events)
             arg = pe.expand(apps[0].args[0], at=apps_[0][0])
-            bx = text(pe.expand(ast.Name(id="bounds", ctx=ast.Load()), at=apps_[0][0]))
             if not (isinstance(arg, ast.Call) and (access_path(arg.func) or "").endswith("gen_number")):
                 if isinstance(arg, ast.Name):
                     unknown = unknown or "appended value %s not resolved on the path [%s]" % (text(arg), p.describe(4))
                 else:
                     bad = bad or "a coordinate is not produced by gen_number (%s)" % text(arg)
                 continue
-            # when bounds are known on the path they must be passed
-            knows_bounds = any(e.kind == "guard" and "bounds is None" in text(e.node) and e.val is False for e in p.events) or \
-                not any(e.kind == "guard" and "bounds is None" in text(e.node) for e in p.events)
-            passes = any(k.arg == "bounds" and text(k.value) == bx for k in arg.keywords) or (arg.args and text(arg.args[0]) == bx)
-            has_b = any(e.kind == "guard" and "'bounds' in" in text(e.node) and ((not e.val) if isinstance(e.node, ast.UnaryOp) else True) for e in p.events)
-            none_true = any(e.kind == "guard" and "bounds is None" in text(e.node) and e.val is True for e in p.events)
+            # the parameter's bounds (or the interval around its initial value) must be what is passed, unless they are None
+            def from_param(x):
+                tx = text(x)
+                return "['bounds']" in tx or "initial_value" in tx
+            bargs = [k.value for k in arg.keywords if k.arg == "bounds"] + list(arg.args[:1])
+            passes = any(from_param(b) for b in bargs)
+            none_true = False
+            for k_, e in enumerate(p.events):
+                if e.kind == "guard" and e.val is True and isinstance(e.node, ast.Compare) and len(e.node.ops) == 1 and isinstance(e.node.ops[0], ast.Is) \
+                        and text(e.node.comparators[0]) == "None" and from_param(pe.expand_at(e.node.left, k_)):
+                    none_true = True
             if not passes and not none_true:
                 bad = bad or "a coordinate is drawn without the parameter's bounds on the path [%s]" % p.describe(5)
         rv = access_path(rets[-1].value.func.value) if isinstance(rets[-1].value, ast.Call) and isinstance(rets[-1].value.func, ast.Attribute) else access_path(rets[-1].value)
@@ -496,13 +500,16 @@ def r3_generators(ctx, repo):
         g = repo.cls(gname, "operators")
         fn = g.methods.get("generate")
         levels = [s for s in stmts_of(fn) if isinstance(s, ast.Assign) and isinstance(s.targets[0], ast.Subscript) and isinstance(s.value, ast.List)]
-        defs = single_defs(fn)
+        TG = Terms(fn)
         good = bool(levels)
         for s in levels:
             for e in s.value.elts:
-                t = canon_text(e, defs)
-                if not (t.endswith("['bounds'][0]") or t.endswith("['bounds'][1]") or
-                        poly.equal(canon(e, defs), poly.parse("(parameter['bounds'][0] + parameter['bounds'][1]) / 2.0"))):
+                ex = TG.expand(e, at=s)
+                t = text(ex)
+                owners = {text(n_.value.value) for n_ in ast.walk(ex) if isinstance(n_, ast.Subscript) and isinstance(n_.value, ast.Subscript)
+                          and text(n_.value.slice) == "'bounds'"}
+                mid = len(owners) == 1 and poly.equal(ex, poly.parse("({o}['bounds'][0] + {o}['bounds'][1]) / 2.0".format(o=next(iter(owners)))))
+                if not (t.endswith("['bounds'][0]") or t.endswith("['bounds'][1]") or mid):
                     good = False
         ctx.check3(True if good else (False if levels else None), "R3", "%s.generate" % gname, where(g.module, fn), "level lists are built from the parameter's bounds (and their midpoint) only",
                    "a level list contains a value that is not one of the parameter's bounds (or their midpoint): %s" % "; ".join(text(s_.value) for s_ in levels), "level lists not recognised", key="levels-from-bounds")
